@@ -131,6 +131,16 @@ CLAIMS = {
              "the Recommendation assigns (Outcome table) appeared on the internal queue, all events were processed and the final "
              "cancel ended the session.",
         note="A stall is judged by a 20 s deadline after all events were queued; documents the reader rejects are outside the property."),
+    "C13": dict(
+        category="model_checking", design_ref="4/C13",
+        technique="TLC model checking of Queue.tla (producers / consumer with atomic append) + trace validation of recorded multi-producer runs (TraceC13.tla)",
+        text="Queue.tla (N producers appending atomically, one consumer completing each macrostep before the next dequeue) is "
+             "model-checked exhaustively for 3 producers x 2 events: PerSenderOrder, NoLossNoDup, NoOverlap and the liveness "
+             "property AllConsumed. Real runs with 2-16 host producer threads (with jitter), a timer producer (delayed sends) and "
+             "a second session sending by session id are recorded: every producer logs its own send order, the session marks the "
+             "first and the last content of each macrostep; TraceC13.tla accepts a run only if the consumed sequence is a merge "
+             "of the producers' sequences (each event exactly once, per-sender order) and has the shape (dequeue, begin, end)*.",
+        note="The real scheduler is steered, not enumerated; exhaustiveness is at the model level. HTTP producers are covered by C20."),
     "C18": dict(
         category="fault_enumeration", design_ref="4/C18",
         technique="Rfsm.tla reader/writer protocol model-checked (CutIsError); every cut position and every single write fault of real images validated by TraceC18.tla",
